@@ -35,7 +35,7 @@ def reference(items, preset):
             inbit = (octet >> pos) & 1
             out = (reg >> 15) & 1
             reg = (reg << 1) & 0xFFFF
-            reg = reg ^ ((out ^ inbit) * 0x1021)
+            reg = reg ^ ((0 - (out ^ inbit)) & 0x1021)
     return bitrev16(reg)
 
 
@@ -76,10 +76,6 @@ def kernel():
     return _KERNEL[0]
 
 
-def _symbolic(x):
-    return type(x).__name__ in ("SymInt", "SymBool")
-
-
 def install_summary(sx):
     """symbolic mode: nfc.clf.device.calculate_crc (2^(8n) paths on symbolic
     data) is replaced by its if-converted term (symx.ifconv; C14 proves it
@@ -90,9 +86,9 @@ def install_summary(sx):
     k = kernel()
 
     def calculate_crc(data, size, reg):
-        part = list(data)[:size] if not _symbolic(size) else None
-        if part is not None and not _symbolic(reg) and \
-                not any(_symbolic(x) for x in part):
+        part = list(data)[:size] if not sx.is_sym(size) else None
+        if part is not None and not sx.is_sym(reg) and \
+                not any(sx.is_sym(x) for x in part):
             return REAL(data, size, reg)
         return k(data, size, reg)
     devmod.calculate_crc = calculate_crc
